@@ -1409,6 +1409,36 @@ func (c *Chain) CorruptStream(n int) {
 			c.randomBytesCase(r, hs, preState)
 			continue
 		}
+		// ~5%: the untouched block presented to another pre-state of the chain (replay across slots and forks)
+		if r.Chance(5) && len(c.Honest) > 1 {
+			c.wrongPreStateCase(r, hs)
+			continue
+		}
+		// ~2%: the honest block without result validation; ~1%: slot processing that must fail
+		if r.Chance(2) {
+			res := RunTransition(c.Spec, preState, nil, hs.Blk.Signed(), hs.Blk.Fork, false, hs.Engine, -1, -1)
+			post := res.Verdict()
+			if res.Post != nil {
+				post = c.Rec.State(res.Post)
+			}
+			line := c.Rec.Line("trans %s %s 0 %s %s kind=honest ctx=fresh replay=1", hs.PreID, hs.BlkID, hs.Engine, post)
+			c.recordEngine(line, res.Engine)
+			c.Stats.Inc("honest_replays_validate0")
+			continue
+		}
+		if r.Chance(1) {
+			ps, _ := preState.Slot()
+			for _, t := range []common.Slot{ps, ps.Previous()} {
+				res := RunSlots(c.Spec, preState, nil, t, -1)
+				post := res.Verdict()
+				if res.Post != nil {
+					post = c.Rec.State(res.Post)
+				}
+				c.Rec.Line("slots %s %d %s", hs.PreID, t, post)
+				c.Stats.Inc("slots_records_not_forward")
+			}
+			continue
+		}
 		for i := range perm {
 			perm[i] = i
 		}
@@ -1535,6 +1565,49 @@ func firstLine(s string) string {
 		s = s[:200]
 	}
 	return s
+}
+
+// wrongPreStateCase presents an honest block to the pre-state of another honest step.
+func (c *Chain) wrongPreStateCase(r *hx.Rng, hs HonestStep) {
+	other := c.Honest[r.Intn(len(c.Honest))]
+	if other.PreID == hs.PreID {
+		return
+	}
+	raw, fk := c.Rec.StateRaw(other.PreID)
+	pre, err := DecodeState(c.Spec, fk, raw)
+	if err != nil {
+		return
+	}
+	for _, validate := range []bool{true, false} {
+		v := 0
+		if validate {
+			v = 1
+		}
+		eng := hs.Engine
+		res := RunTransition(c.Spec, pre, nil, hs.Blk.Signed(), hs.Blk.Fork, validate, eng, -1, -1)
+		rule := RuleClass(res.Err)
+		if res.Panicked {
+			rule = "panic"
+			c.problem("PANIC in zrnt on block %s presented to state %s: %v", hs.BlkID, other.PreID, res.PanicVal)
+		}
+		post := res.Verdict()
+		if res.Post != nil {
+			post = c.Rec.State(res.Post)
+			c.noteState(res.Post)
+		}
+		variant := "same_fork"
+		if fk != hs.Blk.Fork {
+			variant = fmt.Sprintf("%s_block_on_%s_state", hs.Blk.Fork, fk)
+		}
+		line := c.Rec.Line("trans %s %s %d %s %s kind=corrupt corrupt=wrong_pre_state variant=%s rule=%s", other.PreID, hs.BlkID, v, eng, post, variant, rule)
+		if res.Err != nil {
+			c.Rec.Comment("error: " + firstLine(res.Err.Error()))
+		}
+		c.recordEngine(line, res.Engine)
+		c.Stats.Inc("corrupt_blocks")
+		c.Stats.Inc("corrupt.wrong_pre_state")
+		c.Stats.Inc("corrupt_rule." + rule)
+	}
 }
 
 // randomBytesCase mutates bytes of the valid block until it still decodes, and runs it with and without validation.
